@@ -111,7 +111,13 @@ impl Table {
             }
             self.rows[i].attrs = v;
         }
-        let ch: Vec<XmlNode> = n.child_nodes().iter().collect();
+        // the value items of an attribute are not walked: the evaluator never asks for the children
+        // of an attribute node (XPath attribute nodes have none), so they are not part of its view
+        let ch: Vec<XmlNode> = if matches!(n, XmlNode::Attribute(_)) {
+            vec![]
+        } else {
+            n.child_nodes().iter().collect()
+        };
         let v: Vec<usize> = ch.into_iter().map(|c| self.add(c)).collect();
         self.rows[i].children = v;
         i
